@@ -43,15 +43,19 @@ def _case(draw, unit):
         b, q = draw(scatu.family_strategy(order))
     colour = unit['colour'] if 'colour' in unit else draw(st.sampled_from([False, False, True]))
     sz = st.one_of(st.integers(1, 3).map(lambda k: 8 * k), st.integers(3 if order == 2 else 2, 24))
-    return {'order': order, 'biort': b, 'qshift': q, 'colour': colour, 'bias': draw(scatu.bias_strategy(positive=True)),
+    case = {'order': order, 'biort': b, 'qshift': q, 'colour': colour, 'bias': draw(scatu.bias_strategy(positive=True)),
             'N': draw(st.sampled_from([1, 2])), 'C': 3 if colour else draw(st.sampled_from([1, 2])),
             'eval': draw(st.integers(0, 3)) == 0,
             'size': [draw(sz), draw(sz)],
             'rx': draw(core.recipe_strategy(kinds=['gaussian', 'gaussian', 'sparse', 'constant', 'zeros', 'ramp', 'spike', 'grating'],
-                                            scales=(0, 0, 0, 0, 4, -4, 30, -30))),
+                                            scales=(0, 0, 0, 0, 4, -4, 30, -30, -7, -9))),
             'rg': draw(core.recipe_strategy(kinds=['gaussian', 'gaussian', 'sparse', 'spike', 'constant', 'contrast', 'contrast', 'ints'], scales=(0,))),
             'mode': draw(st.sampled_from(['symmetric', 'symmetric', 'zero'])) if order == 1 else 'symmetric',
             'permuted_cotangent': draw(st.booleans()), 'k': draw(st.integers(0, 10**6))}
+    if case['rx']['scale'] in (-7, -9) and draw(st.booleans()):
+        # low-amplitude data with a bias of the same order (any magbias > 0 is in the property's domain)
+        case['bias'] = draw(st.sampled_from([1e-7, 1e-8, 1e-10]))
+    return case
 
 
 def strategy(unit):
